@@ -66,6 +66,10 @@ def make_param(ctx, name, ty, inputs):
         k = ctx.fork(2)
         inputs.append((name, "const", bool(k)))
         return bool(k)
+    if ty == "str":
+        z = z3.Const(ctx.fresh_name(name), sym.BytesS)
+        inputs.append((name, "str", z))
+        return sym.VStr(z)
     if ty == "bytes" or (isinstance(ty, str) and ty.startswith("bytes:")):
         n = int(ty.split(":")[1]) if ":" in ty else None
         v = ctx.fresh_bytes(name, n)
